@@ -1,7 +1,7 @@
 (* Case records and comparison functions for the generated correspondence files of property C16
    (harness/cmd/proftree).  Executable definitions only. *)
 From Coq Require Import List NArith ZArith Bool Uint63.
-From Qryn Require Import model.Pprof model.ProfTree.
+From Qryn Require Import model.Pprof model.ProfTree model.ProfDiff model.ProfSql.
 Import ListNotations.
 
 (* ------------------------------------------------------------------ equality tests *)
@@ -185,6 +185,61 @@ Definition dup_id_across_parents (ns : list (N * list tnode)) : bool :=
   negb (ids_distinct (map r_id out)) &&
   existsb (fun a => existsb (fun b => N.eqb (r_id a) (r_id b) && negb (N.eqb (r_parent a) (r_parent b))) out) out.
 
+(* ------------------------------------------------------------------ the diff view (ProfService.RenderDiff) *)
+Record dcase := {
+  dc_present : bool;
+  dc_lfrom : Z; dc_lto : Z; dc_rfrom : Z; dc_rto : Z;       (* the time windows read out of the two statements *)
+  dc_lrows : list row; dc_lfuncs : list (N * Z); dc_rrows : list row; dc_rfuncs : list (N * Z);
+  (* observations *)
+  dc_err : Z;                                                 (* 0 none, 1 "... tree is not positive", 2 anything else *)
+  dc_names : list Z; dc_levels : list (list Z);
+  dc_ticks : Z; dc_maxself : Z; dc_left : Z; dc_right : Z }.
+
+Definition dc_trees (d : dcase) : mtree * mtree :=
+  (merge_trie the_limit new_tree (dc_lrows d) (dc_lfuncs d), merge_trie the_limit new_tree (dc_rrows d) (dc_rfuncs d)).
+
+Definition diff_mismatch (d : dcase) : bool :=
+  if negb (dc_present d) then false
+  else let '(t1, t2) := dc_trees d in
+       match render_diff t1 t2 with
+       | None => negb (Z.eqb (dc_err d) 1)
+       | Some o => negb (Z.eqb (dc_err d) 0 &&
+                         list_eqb Z.eqb (dc_names d) (o_names o) &&
+                         list_eqb (list_eqb Z.eqb) (dc_levels d) (o_levels o) &&
+                         Z.eqb (dc_ticks d) (o_total o) && Z.eqb (dc_maxself d) (o_maxself o) &&
+                         Z.eqb (dc_left d) (o_left o) && Z.eqb (dc_right d) (o_right o))
+       end.
+
+(* number of distinct (parent, node id) keys of a row list *)
+Definition distinct_keys (rows : list row) : nat :=
+  length (rows_of (m_nodes (merge_trie the_limit new_tree rows []))).
+
+(* spec oracle on the OBSERVED diff: both tick counts are the sums of the root rows of their side, the total is
+   their sum; when both sides are regular trees: level 0 is the pair of root bars, on each side every bar lies inside
+   some bar one level up, gaps and totals are non-negative, and there is one bar per (parent, node) key of the union
+   of both sides.  0 fine, 2 violation *)
+Definition diff_spec (nest : bool) (d : dcase) : Z :=
+  if negb (dc_present d) then 0%Z
+  else if negb (Z.eqb (dc_err d) 0) then
+         (* refusing is right exactly when a self value is negative *)
+         (if Z.eqb (dc_err d) 1 && existsb (fun r => Z.ltb (r_self r) 0) (rows_of (m_nodes (fst (dc_trees d))) ++ rows_of (m_nodes (snd (dc_trees d))))
+          then 0%Z else 2%Z)
+  else
+    let l := wrap64 (rchild_tot (dc_lrows d) 0) in
+    let r := wrap64 (rchild_tot (dc_rrows d) 0) in
+    if negb (Z.eqb (dc_left d) l && Z.eqb (dc_right d) r && Z.eqb (dc_ticks d) (wrap64 (l + r))) then 2%Z
+    else
+      let '(t1, t2) := dc_trees d in
+      if nest && tree_regular (m_nodes t1) && tree_regular (m_nodes t2) &&
+         negb (match dc_levels d with
+               | l0 :: rest => list_eqb Z.eqb l0 [0; l; 0; 0; r; 0; 0]%Z &&
+                               dvalues_nest_b 0 (dabs_values 0 0 l0) rest &&
+                               dvalues_nest_b 3 (dabs_values 3 0 l0) rest &&
+                               Nat.eqb (length (concat rest)) (7 * distinct_keys (dc_lrows d ++ dc_rrows d))
+               | [] => false
+               end) then 2%Z
+      else 0%Z.
+
 (* ------------------------------------------------------------------ whole cases *)
 Record case := {
   c_id : Z;
@@ -192,7 +247,11 @@ Record case := {
   c_fnh : list N;                  (* city.CH64 of the name with token i *)
   c_profs : list prof;
   c_sel : Z;                       (* token of the selected "type:unit" *)
-  c_merge : mcase }.
+  c_merge : mcase;
+  c_grouped : bool;                (* the rows handed to MergeTrie were grouped (what the SQL returns) *)
+  c_stmt : Z;                      (* index of the case's statement template in the run's table, -1 = none recorded *)
+  c_mfrom : Z; c_mto : Z;          (* time window of the MergeStackTraces statement *)
+  c_diff : dcase }.
 
 Fixpoint index_of (x : Z) (l : list Z) (i : nat) : option nat :=
   match l with
@@ -206,7 +265,41 @@ Definition projected (c : case) : list row :=
 
 Definition case_mismatch (c : case) : bool :=
   existsb (prof_mismatch (c_fnh c)) (c_profs c) ||
-  merge_mismatch (c_merge c).
+  merge_mismatch (c_merge c) || diff_mismatch (c_diff c).
+
+(* ------------------------------------------------------------------ judging the statements of the read path
+   the database of a case: profile i was stored at timestamp i seconds with the rows the writer emitted *)
+Definition db_of (c : case) : list sprof :=
+  map (fun ip => {| sp_ts := Z.of_nat (fst ip) * 1000000000;
+                    sp_tree := map (fun n => {| e_p := n_parent n; e_f := n_fn n; e_i := n_id n;
+                                                e_vals := combine (pf_st (snd ip)) (n_vals n) |}) (pf_rows (snd ip)) |})
+      (combine (seq 0 (length (c_profs c))) (c_profs c)).
+Definition with_window (s : merge_stmt) (from to : Z) : merge_stmt :=
+  {| ms_fp := ms_fp s; ms_table := ms_table s; ms_matchers := ms_matchers s; ms_types := ms_types s;
+     ms_proj := ms_proj s; ms_from := from; ms_to := to; ms_out := ms_out s; ms_group := ms_group s;
+     ms_order := ms_order s; ms_limit := ms_limit s; ms_tree_agg := ms_tree_agg s; ms_fn_agg := ms_fn_agg s |}.
+Definition stmt_gives (c : case) (s : merge_stmt) (from to : Z) (handed : list row) : bool :=
+  match eval_merge_stmt [c_sel c] (with_window s from to) (db_of c) with
+  | Some rows => rows_same rows (group_rows handed)
+  | None => false
+  end.
+Definition stored_rows_count (c : case) : nat := fold_right (fun p acc => (length (pf_rows p) + acc)%nat) O (c_profs c).
+(* 0 = not judged (no statement, synthetic rows, or more than 150 stored rows), 1 = the statements evaluate to the rows
+   that were handed to the service (and a grouped hand-over has distinct keys), 2 = they do not *)
+Definition sql_judge (stmts : list merge_stmt) (c : case) : Z :=
+  if negb (c_e2e c) || Z.ltb (c_stmt c) 0 || Nat.ltb 150 (stored_rows_count c) then 0%Z
+  else match nth_error stmts (Z.to_nat (c_stmt c)) with
+       | None => 2%Z
+       | Some s =>
+           let d := c_diff c in
+           if stmt_gives c s (c_mfrom c) (c_mto c) (mc_rows (c_merge c)) &&
+              (negb (c_grouped c) || Nat.eqb (length (group_rows (mc_rows (c_merge c)))) (length (mc_rows (c_merge c)))) &&
+              (negb (dc_present d) ||
+               stmt_gives c s (dc_lfrom d) (dc_lto d) (dc_lrows d) && stmt_gives c s (dc_rfrom d) (dc_rto d) (dc_rrows d) &&
+               Nat.eqb (length (group_rows (dc_lrows d))) (length (dc_lrows d)) &&
+               Nat.eqb (length (group_rows (dc_rrows d))) (length (dc_rrows d)))
+           then 1%Z else 2%Z
+       end.
 
 (* end to end: the flame graph total of the merged tree = sum of the stored root totals; each profile conserves;
    the merged tree is the sum.  Result: 0 fine, 2 violation, 3 only the known node-id collision inside a profile
@@ -215,9 +308,13 @@ Definition case_mismatch (c : case) : bool :=
 Definition case_spec (c : case) : Z :=
   let ps := map (prof_spec (c_fnh c)) (c_profs c) in
   let m := merge_spec (c_merge c) in
-  if existsb (Z.eqb 2) ps || Z.eqb m 2 then 2%Z
+  (* one node id under two parents across the ingested profiles: the nesting oracles of the merged views do not apply
+     (their precondition, distinct ids, fails for the merged tree; for the diff view the two sides pool the children of
+     the shared id); everything else is still demanded *)
+  let coll := c_e2e c && negb (tree_regular (mc_tree (c_merge c))) && dup_id_across_parents (mc_tree (c_merge c)) in
+  if existsb (Z.eqb 2) ps || Z.eqb m 2 || Z.eqb (diff_spec (negb coll) (c_diff c)) 2 then 2%Z
   else if existsb (Z.eqb 3) ps then 3%Z
-  else if c_e2e c && negb (tree_regular (mc_tree (c_merge c))) && dup_id_across_parents (mc_tree (c_merge c)) then 4%Z
+  else if coll then 4%Z
   else 0%Z.
 
 (* kind "hash" *)
@@ -279,9 +376,19 @@ Definition rd_mcase : R mcase :=
   tmap <- rd_list (rd_pair rd_u rd_z) ;;
   ret {| mc_rows := rows; mc_funcs := funcs; mc_panic := panic; mc_tree := tree; mc_num := num; mc_total := total;
          mc_maxself := maxself; mc_levels := levels; mc_tnames := tnames; mc_tmap := tmap |}.
+Definition rd_dcase : R dcase :=
+  present <- rd_b ;; lfrom <- rd_z ;; lto <- rd_z ;; rfrom <- rd_z ;; rto <- rd_z ;;
+  lrows <- rd_list rd_row ;; lfuncs <- rd_list (rd_pair rd_u rd_z) ;; rrows <- rd_list rd_row ;; rfuncs <- rd_list (rd_pair rd_u rd_z) ;;
+  err <- rd_z ;; names <- rd_list rd_z ;; levels <- rd_list (rd_list rd_z) ;;
+  ticks <- rd_z ;; maxself <- rd_z ;; left <- rd_z ;; right <- rd_z ;;
+  ret {| dc_present := present; dc_lfrom := lfrom; dc_lto := lto; dc_rfrom := rfrom; dc_rto := rto;
+         dc_lrows := lrows; dc_lfuncs := lfuncs; dc_rrows := rrows; dc_rfuncs := rfuncs; dc_err := err; dc_names := names;
+         dc_levels := levels; dc_ticks := ticks; dc_maxself := maxself; dc_left := left; dc_right := right |}.
 Definition rd_case : R case :=
   id <- rd_z ;; e2e <- rd_b ;; fnh <- rd_list rd_u ;; profs <- rd_list rd_prof ;; sel <- rd_z ;; m <- rd_mcase ;;
-  ret {| c_id := id; c_e2e := e2e; c_fnh := fnh; c_profs := profs; c_sel := sel; c_merge := m |}.
+  grouped <- rd_b ;; stmt <- rd_z ;; mfrom <- rd_z ;; mto <- rd_z ;; d <- rd_dcase ;;
+  ret {| c_id := id; c_e2e := e2e; c_fnh := fnh; c_profs := profs; c_sel := sel; c_merge := m;
+         c_grouped := grouped; c_stmt := stmt; c_mfrom := mfrom; c_mto := mto; c_diff := d |}.
 Definition rd_hcase : R hcase :=
   id <- rd_z ;; a <- rd_u ;; b <- rd_u ;; h <- rd_u ;; ret {| h_id := id; h_a := a; h_b := b; h_h := h |}.
 
@@ -319,18 +426,25 @@ Definition hyp_summary (ws : list (list int)) : Z * Z :=
   (Z.of_nat (length (filter (fun r => negb (Z.eqb r 0)) rs)), Z.of_nat (length (filter (Z.eqb 1) rs))).
 
 (* everything the check prints, decoding once: (decode errors, mismatches, spec results, hypothesis summary,
-   ids of the cases holding a profile for which the hypothesis of tree_conserves fails under the real hash) *)
-Definition all_results (ws : list (list int)) : list Z * list Z * list (Z * Z) * (Z * Z * Z) * list Z :=
+   ids of the cases holding a profile for which the hypothesis of tree_conserves fails under the real hash,
+   (ids whose diff view differs from the model, ids whose statements do not evaluate to the rows handed over,
+    number of cases whose statements were judged)) *)
+Definition all_results (stmts : list merge_stmt) (ws : list (list int))
+  : list Z * list Z * list (Z * Z) * (Z * Z * Z) * list Z * (list Z * list Z * Z) :=
   let cs := decoded rd_case ws in
   let hs := map (fun c => (c_id c, map (prof_hyp (c_fnh c)) (c_profs c))) cs in
   let rs := flat_map snd hs in
+  let js := map (fun c => (c_id c, sql_judge stmts c)) cs in
   (decode_errors ws,
    map c_id (filter case_mismatch cs),
    filter (fun x => negb (Z.eqb (snd x) 0)) (map (fun c => (c_id c, case_spec c)) cs),
    (Z.of_nat (length (filter (fun r => negb (Z.eqb r 0)) rs)), Z.of_nat (length (filter (Z.eqb 1) rs)),
     (* cases whose OBSERVED merged tree meets the hypotheses of levels_nest (so the nesting oracle applies) *)
     Z.of_nat (length (filter (fun c => tree_regular (mc_tree (c_merge c)) && negb (is_nil (mc_tree (c_merge c)))) cs))),
-   map fst (filter (fun x => existsb (Z.eqb 2) (snd x)) hs)).
+   map fst (filter (fun x => existsb (Z.eqb 2) (snd x)) hs),
+   (map c_id (filter (fun c => diff_mismatch (c_diff c)) cs),
+    map fst (filter (fun x => Z.eqb (snd x) 2) js),
+    Z.of_nat (length (filter (fun x => Z.eqb (snd x) 1) js)))).
 
 Definition mismatches (ws : list (list int)) : list Z := map c_id (filter case_mismatch (decoded rd_case ws)).
 Definition spec_results (ws : list (list int)) : list (Z * Z) :=
